@@ -1323,6 +1323,7 @@ func ruleMaskFieldListPerChild(c *Ctx, r *Rule) {
 		n++
 		r.Inst(1)
 		bad := ""
+		usesEmpty := false
 		onStack := map[*ssa.Phi]bool{}
 		var walk func(v ssa.Value, acc []lit, d int)
 		walk = func(v ssa.Value, acc []lit, d int) {
@@ -1359,6 +1360,7 @@ func ruleMaskFieldListPerChild(c *Ctx, r *Rule) {
 				}
 			case *ssa.UnOp:
 				if _, f, _, ok := loadedField(x); ok && f == "emptyFMNode" {
+					usesEmpty = true
 					return
 				}
 			case *ssa.Parameter:
@@ -1377,11 +1379,26 @@ func ruleMaskFieldListPerChild(c *Ctx, r *Rule) {
 				if x.IsNil() {
 					return // the declared-but-unassigned variable: only on the has-children paths, where it is overwritten
 				}
+			case *ssa.Call:
+				// a node derived from the parent's own node (the repair of K8 would look like this:
+				// the parent's marks without its children)
+				for _, a := range x.Call.Args {
+					if pp, isP := stripConv(a).(*ssa.Parameter); isP && typeIs(pp.Type(), maskPkg, "fieldMasksNode") {
+						return
+					}
+				}
 			}
 			bad = "unexpected source " + c.path(v)
 		}
 		walk(ci.Common().Args[pi], c.unitGuards(ci), 0)
 		r.Ob(bad == "", fmt.Sprintf("%s|descend#%d|own-list-node", c.fnName(fn), n), ci.Pos(), "the list node handed to a child is chosen for that child (its own entry, the empty node, or the parent's node when nothing is listed below it)"+ifs(bad != "", ": "+bad))
+		// a listed field covers everything below it. When the node has listed children (another list
+		// mentions a deeper path), an UNLISTED child gets the plugin's empty node, which carries none of
+		// the marks of the listed ancestor: a mask that ignores `a.b` then runs on `a.b.d` as soon as any
+		// list mentions `a.b.c`. (Passing the parent's own marks down would satisfy this.)
+		if bad == "" {
+			r.Ob(!usesEmpty, fmt.Sprintf("%s|descend#%d|ancestor-marks-kept", c.fnName(fn), n), ci.Pos(), "an unlisted child below a node with listed children keeps the marks of its listed ancestors (found: it is given the empty list node, so a mask that ignores or is restricted to the ancestor no longer is below it once any list names a deeper path)")
+		}
 	}
 	r.Ob(n >= 2, c.fnName(fn)+"|descents", fn.Pos(), fmt.Sprintf("%d recursive descents examined", n))
 }
